@@ -392,8 +392,10 @@ def main(argv=None):
         for s in range(nshards):
             out = os.path.join(tmp, "shard%d.json" % s)
             log = open(os.path.join(tmp, "shard%d.log" % s), "w")
+            # hash randomisation (set / dict-of-str iteration order) is an environment setting the library must not depend on: every shard gets its own
+            env_s = dict(env, PYTHONHASHSEED=str((int(seed) * 31 + s * 7 + 1) % 4294967295))
             p = subprocess.Popen([PY, "-m", "vf.runner", "--shard", pid, tier, str(seed), str(s), str(nshards), str(ncases),
-                                  str(soft_s), out], cwd=VERIF, env=env, stdout=log, stderr=subprocess.STDOUT)
+                                  str(soft_s), out], cwd=VERIF, env=env_s, stdout=log, stderr=subprocess.STDOUT)
             procs.append((s, p, out, log))
         for s, p, out, log in procs:
             try:
